@@ -31,7 +31,61 @@ Proof.
   reflexivity.
 Qed.
 
+(* ------------------------------------------------------------------ IPv4 address text *)
+
+Lemma split_dots_digits ds : forall cur rest, all_digits ds = true ->
+  split_dots cur (ds ++ rest) = split_dots (rev ds ++ cur) rest.
+Proof.
+  induction ds as [|c ds IH]; intros cur rest D; [reflexivity|].
+  cbn [all_digits] in D. apply andb_true_iff in D as [D1 D2]. cbn [app split_dots].
+  destruct (c =? 46) eqn:E; [unfold is_digit in D1; lia|]. rewrite IH by exact D2. cbn [rev]. rewrite <- app_assoc. reflexivity.
+Qed.
+
+Lemma ip4_octet_table : forall n, n < 256 -> parse_ip4_octet (show_dec n) = Some n.
+Proof.
+  intros n Hn.
+  assert (H : forallb (fun n => match parse_ip4_octet (show_dec n) with Some x => x =? n | None => false end) octets256 = true)
+    by (vm_compute; reflexivity).
+  pose proof (forall_octets _ H n Hn) as H1. cbv beta in H1.
+  destruct (parse_ip4_octet (show_dec n)); [apply N.eqb_eq in H1; subst; reflexivity | discriminate].
+Qed.
+
+Definition wf_ip4 (a : bytes) : Prop := wf_bytes a /\ length a = 4%nat.
+
+Lemma parse_show_ip4 a : wf_ip4 a -> parse_ip4 (show_ip4 a) = Some a.
+Proof.
+  intros [W L]. destruct a as [|a1 [|a2 [|a3 [|a4 [|]]]]]; try discriminate.
+  inversion W as [|? ? H1 W1]; subst. inversion W1 as [|? ? H2 W2]; subst.
+  inversion W2 as [|? ? H3 W3]; subst. inversion W3 as [|? ? H4 _]; subst.
+  unfold parse_ip4, show_ip4.
+  rewrite split_dots_digits by apply show_dec_digits. cbn [split_dots N.eqb Pos.eqb app]. rewrite app_nil_r, rev_involutive.
+  rewrite split_dots_digits by apply show_dec_digits. cbn [split_dots N.eqb Pos.eqb app]. rewrite app_nil_r, rev_involutive.
+  rewrite split_dots_digits by apply show_dec_digits. cbn [split_dots N.eqb Pos.eqb app]. rewrite app_nil_r, rev_involutive.
+  rewrite <- (app_nil_r (show_dec a4)). rewrite split_dots_digits by apply show_dec_digits.
+  cbn [split_dots]. rewrite app_nil_r, rev_involutive.
+  rewrite !ip4_octet_table by assumption. reflexivity.
+Qed.
+
+Lemma show_ip4_plain a : wf_ip4 a -> plain_word (show_ip4 a) = true.
+Proof.
+  intros [W L]. destruct a as [|a1 [|a2 [|a3 [|a4 [|]]]]]; try discriminate.
+  unfold show_ip4, plain_word.
+  pose proof (show_dec_nonempty a1) as NE.
+  assert (P : forall n, forallb plain_char (show_dec n) = true) by (intros n; apply digits_plain, show_dec_digits).
+  rewrite forallb_app, P. cbn [forallb]. rewrite forallb_app, P. cbn [forallb]. rewrite forallb_app, P. cbn [forallb]. rewrite P.
+  destruct (show_dec a1); [congruence | reflexivity].
+Qed.
+
+Lemma plain_read_octets sp t : forallb plain_char t = true -> read_octets (shape_tok sp (TWord (map SChar t))) = Ok t.
+Proof.
+  unfold read_octets. cbn [shape_tok t_syms]. induction t as [|c t IH]; intros H; [reflexivity|].
+  cbn [forallb map map_o] in *. apply andb_true_iff in H as [H1 H2].
+  destruct (plain_char_facts c H1) as (_ & _ & A). rewrite A. cbn [bind]. rewrite IH by exact H2. reflexivity.
+Qed.
+
 (* ------------------------------------------------------------------ fields *)
+
+Definition salt_text (w : text) : text := match w with [] => [45] | _ => w end.
 
 Definition field_shapes (v : fval) : list tshape :=
   match v with
@@ -41,12 +95,19 @@ Definition field_shapes (v : fval) : list tshape :=
   | VWord w => [TWord (map SChar w)]
   | VCharstrs l => map (fun b => TQuoted (map quoted_from_octet b)) l
   | VRest w => match w with [] => [] | _ => [TWord (map SChar w)] end
+  | VRtype n => [TWord (map SChar (show_rtype n))]
+  | VTypes l => map (fun n => TWord (map SChar (show_rtype n))) l
+  | VSalt w => [TWord (map SChar (salt_text w))]
+  | VQuoted b => [TQuoted (map quoted_from_octet b)]
+  | VIp4 a => [TWord (map SChar (show_ip4 a))]
   end.
 
-(* the write_token calls of a field: an empty rest-of-entry word is an empty token *)
+(* the write_token / begin_block calls of a field: an empty rest-of-entry word is an empty
+   token, the NSEC3 salt opens a block of its own (closed after its comment) *)
 Definition val_sops (v : fval) : list sop :=
   match v with
   | VRest [] => [SEmpty]
+  | VSalt _ => SBegin :: map (fun sh => STok sh) (field_shapes v)
   | _ => map (fun sh => STok sh) (field_shapes v)
   end.
 
@@ -58,27 +119,51 @@ Definition wf_field (k : fkind) (v : fval) : Prop :=
   | FWord, VWord w => plain_word w = true
   | FCharstrs, VCharstrs l => l <> [] /\ Forall wf_charstr l
   | FRest, VRest w => forallb plain_char w = true
+  | FRtype, VRtype n => n < 65536
+  | FTypes, VTypes l => Forall (fun n => n < 65536) l
+  | FSalt, VSalt w => forallb plain_char w = true /\ w <> [45]
+  | FQuoted, VQuoted b => wf_bytes b
+  | FIp4, VIp4 a => wf_ip4 a
   | _, _ => False
   end.
+
+Definition reads_to_end (k : fkind) : Prop := k = FCharstrs \/ k = FRest \/ k = FTypes.
 
 Fixpoint wf_fields (ks : list fkind) (vs : list fval) : Prop :=
   match ks, vs with
   | [], [] => True
-  | k :: kr, v :: vr => wf_field k v /\ (k = FCharstrs \/ k = FRest -> kr = []) /\ wf_fields kr vr
+  | k :: kr, v :: vr => wf_field k v /\ (reads_to_end k -> kr = []) /\ wf_fields kr vr
   | _, _ => False
   end.
 
+Lemma stoks_text l : map erase (map (fun sh => STok sh) l) = map (fun sh => OTok (shape_text sh)) l.
+Proof. rewrite map_map. apply map_ext. intros sh. reflexivity. Qed.
+
 Lemma val_sops_text v : map erase (val_sops v) = show_field v.
 Proof.
-  destruct v as [n|n|b|w|l|w]; cbn [val_sops field_shapes show_field map erase join].
+  destruct v as [n|n|b|w|l|w|n|l|w|b|a]; cbn [val_sops show_field]; try rewrite stoks_text; cbn [field_shapes map erase].
   - cbn [shape_text]. rewrite plain_syms_text. reflexivity.
   - rewrite <- show_name_shape. reflexivity.
   - rewrite <- cstr_quoted_shape. reflexivity.
   - cbn [shape_text]. rewrite plain_syms_text. reflexivity.
-  - rewrite !map_map. apply map_ext. intros b. cbn [erase map join]. rewrite <- cstr_quoted_shape. reflexivity.
+  - rewrite map_map. apply map_ext. intros b. rewrite <- cstr_quoted_shape. reflexivity.
   - destruct w as [|c w]; [reflexivity|]. cbv iota. remember (c :: w) as x.
     cbn [map erase join shape_text]. rewrite plain_syms_text. reflexivity.
+  - cbn [shape_text]. rewrite plain_syms_text. reflexivity.
+  - rewrite map_map. apply map_ext. intros n. cbn [shape_text]. rewrite plain_syms_text. reflexivity.
+  - cbn [join shape_text]. rewrite plain_syms_text. reflexivity.
+  - rewrite <- cstr_quoted_shape. reflexivity.
+  - cbn [shape_text]. rewrite plain_syms_text. reflexivity.
 Qed.
+
+Lemma rtype_plain n : n < 65536 -> plain_word (show_rtype n) = true.
+Proof.
+  intros H. pose proof (rtype_table n H) as T. unfold rtype_ok in T. cbv zeta in T.
+  apply andb_true_iff in T as [T _]. exact T.
+Qed.
+
+Lemma salt_text_plain w : forallb plain_char w = true -> plain_word (salt_text w) = true.
+Proof. intros H. destruct w as [|c w]; [reflexivity|]. unfold salt_text, plain_word. rewrite H. reflexivity. Qed.
 
 Lemma val_sops_good k v : wf_field k v -> Forall good_sop (val_sops v).
 Proof.
@@ -89,6 +174,11 @@ Proof.
   - constructor; [|constructor]. apply S, cstr_quoted_good, W.
   - constructor; [|constructor]. apply S, plain_word_good, W.
   - destruct W as [_ W]. rewrite !Forall_map. eapply Forall_impl; [|exact W]. intros b Hb. apply S, cstr_quoted_good, Hb.
+  - constructor; [|constructor]. apply S, plain_word_good, rtype_plain, W.
+  - rewrite !Forall_map. eapply Forall_impl; [|exact W]. intros n Hn. apply S, plain_word_good, rtype_plain, Hn.
+  - constructor; [exact I|]. constructor; [|constructor]. apply S, plain_word_good, salt_text_plain, W.
+  - constructor; [|constructor]. apply S, plain_word_good, show_ip4_plain, W.
+  - constructor; [|constructor]. apply S, cstr_quoted_good, W.
   - destruct w as [|c w]; [repeat constructor|]. constructor; [|constructor]. apply S, plain_word_good.
     unfold plain_word. rewrite W. reflexivity.
 Qed.
@@ -100,24 +190,58 @@ Proof.
   rewrite read_charstr_quoted by exact Hb. cbn [bind]. rewrite IH. reflexivity.
 Qed.
 
+Lemma read_rtype_ok sp n : n < 65536 -> read_rtype (shape_tok sp (TWord (map SChar (show_rtype n)))) = Ok n.
+Proof.
+  intros H. pose proof (rtype_table n H) as T. unfold rtype_ok in T. cbv zeta in T.
+  apply andb_true_iff in T as [T1 T2]. unfold plain_word in T1. apply andb_true_iff in T1 as [_ T1].
+  unfold read_rtype. rewrite plain_read_ascii by exact T1. cbn [bind].
+  destruct (parse_rtype (show_rtype n)) as [x|]; [|discriminate]. cbn [opt_is] in T2. apply N.eqb_eq in T2. subst. reflexivity.
+Qed.
+
+Lemma map_o_rtypes l : Forall (fun n => n < 65536) l ->
+  map_o read_rtype (map (shape_tok true) (map (fun n => TWord (map SChar (show_rtype n))) l)) = Ok l.
+Proof.
+  induction 1 as [|n l Hn _ IH]; [reflexivity|]. cbn [map map_o].
+  rewrite read_rtype_ok by exact Hn. cbn [bind]. rewrite IH. reflexivity.
+Qed.
+
+Lemma salt_back w : w <> [45] -> match salt_text w with [45] => [] | _ => salt_text w end = w.
+Proof.
+  intros H. destruct w as [|c w]; [reflexivity|]. unfold salt_text.
+  destruct c as [|p]; try reflexivity.
+  destruct w as [|d w]; [|repeat (destruct p as [p|p|]; try reflexivity)].
+  repeat (destruct p as [p|p|]; try reflexivity). congruence.
+Qed.
+
+Lemma read_octets_quoted sp b : wf_bytes b -> read_octets (shape_tok sp (TQuoted (map quoted_from_octet b))) = Ok b.
+Proof. intros W. unfold read_octets. cbn [shape_tok t_syms]. apply (enc_octets true); [exact W | exact quoted_table]. Qed.
+
 Lemma read_fields_ok ks : forall vs, wf_fields ks vs ->
   read_fields ks (map (shape_tok true) (flat_map field_shapes vs)) = Ok vs.
 Proof.
   induction ks as [|k kr IH]; intros [|v vr] W; cbn [wf_fields] in W; try contradiction; [reflexivity|].
   destruct W as (Wv & Wl & Wr). cbn [read_fields flat_map]. rewrite map_app.
+  assert (Last : reads_to_end k -> kr = [] /\ vr = []).
+  { intros E. specialize (Wl E). subst kr. split; [reflexivity|]. destruct vr; [reflexivity | cbn [wf_fields] in Wr; contradiction]. }
   destruct k, v; cbn [wf_field] in Wv; try contradiction; cbn [field_shapes map app read_field].
   - destruct (scan_show_int max n true Wv) as (_ & _ & R). unfold digit_syms in R. rewrite R. cbn [bind].
     rewrite IH by exact Wr. reflexivity.
   - rewrite read_name_shape by exact Wv. cbn [bind]. rewrite IH by exact Wr. reflexivity.
   - rewrite read_charstr_quoted by exact Wv. cbn [bind]. rewrite IH by exact Wr. reflexivity.
   - cbn [shape_tok t_syms]. rewrite plain_word_text. cbn [bind]. rewrite IH by exact Wr. reflexivity.
-  - destruct Wv as [NE Wc]. specialize (Wl (or_introl eq_refl)). subst kr.
-    destruct vr as [|? ?]; [|cbn [wf_fields] in Wr; contradiction].
+  - destruct Wv as [NE Wc]. destruct (Last (or_introl eq_refl)) as [-> ->].
     cbn [flat_map]. rewrite app_nil_r.
     destruct l as [|b l]; [congruence|].
     pose proof (map_o_charstrs (b :: l) Wc) as M. cbn [map] in M |- *. rewrite M. cbn [bind read_fields]. reflexivity.
-  - specialize (Wl (or_intror eq_refl)). subst kr.
-    destruct vr as [|? ?]; [|cbn [wf_fields] in Wr; contradiction].
+  - rewrite read_rtype_ok by exact Wv. cbn [bind]. rewrite IH by exact Wr. reflexivity.
+  - destruct (Last (or_intror (or_intror eq_refl))) as [-> ->]. cbn [flat_map]. rewrite app_nil_r.
+    rewrite map_o_rtypes by exact Wv. cbn [bind read_fields]. reflexivity.
+  - destruct Wv as [Wp Wn]. cbn [shape_tok t_syms]. rewrite plain_word_text. cbn [bind].
+    rewrite salt_back by exact Wn. rewrite IH by exact Wr. reflexivity.
+  - pose proof (show_ip4_plain _ Wv) as P. unfold plain_word in P. apply andb_true_iff in P as [_ P].
+    rewrite plain_read_octets by exact P. cbn [bind]. rewrite parse_show_ip4 by exact Wv. cbv iota. cbn [bind]. rewrite IH by exact Wr. reflexivity.
+  - rewrite read_octets_quoted by exact Wv. cbn [bind]. rewrite IH by exact Wr. reflexivity.
+  - destruct (Last (or_intror (or_introl eq_refl))) as [-> ->].
     cbn [flat_map]. rewrite app_nil_r.
     destruct w as [|c w]; [reflexivity|]. cbv iota. remember (c :: w) as x.
     cbn [map map_o shape_tok t_syms]. rewrite plain_word_text. cbn [bind concat read_fields]. rewrite app_nil_r. reflexivity.
@@ -126,7 +250,8 @@ Qed.
 (* ------------------------------------------------------------------ records *)
 
 Definition field_sops (fc : fval * option text) : list sop :=
-  val_sops (fst fc) ++ match snd fc with Some c => [SComment c] | None => [] end.
+  val_sops (fst fc) ++ match snd fc with Some c => [SComment c] | None => [] end
+  ++ match fst fc with VSalt _ => [SEnd] | _ => [] end.
 Definition data_sops (block : bool) (fs : list (fval * option text)) : list sop :=
   if block then SBegin :: flat_map field_sops fs ++ [SEnd] else flat_map field_sops fs.
 Definition record_sops (r : record) : list sop :=
@@ -136,9 +261,9 @@ Definition record_sops (r : record) : list sop :=
 
 Lemma erase_field_sops fc : map erase (field_sops fc) = field_ops fc.
 Proof.
-  unfold field_sops, field_ops. rewrite map_app. f_equal.
-  - apply val_sops_text.
+  unfold field_sops, field_ops. rewrite !map_app. f_equal; [apply val_sops_text|]. f_equal.
   - destruct (snd fc); reflexivity.
+  - destruct (fst fc); reflexivity.
 Qed.
 
 Lemma erase_flat fs : map erase (flat_map field_sops fs) = flat_map field_ops fs.
@@ -174,7 +299,9 @@ Proof.
   cbn [flat_map]. cbn [snd] in C1. apply Forall_app. split; [|apply IH; assumption].
   unfold field_sops. cbn [fst snd]. apply Forall_app. split.
   - exact (val_sops_good k _ Wk).
-  - destruct oc; [constructor; [exact C1 | constructor] | constructor].
+  - apply Forall_app. split.
+    + destruct oc; [constructor; [exact C1 | constructor] | constructor].
+    + destruct v; repeat constructor.
 Qed.
 
 Lemma balanced_stoks l d rest : balanced d (map (fun sh => STok sh) l ++ rest) = balanced d rest.
@@ -184,24 +311,33 @@ Lemma expect_stoks multi l rest :
   expect multi true (map (fun sh => STok sh) l ++ rest) = map (shape_tok true) l ++ expect multi true rest.
 Proof. induction l as [|sh l IH]; [reflexivity|]. cbn [map app expect]. f_equal. exact IH. Qed.
 
-Lemma balanced_val v d rest : balanced d (val_sops v ++ rest) = balanced d rest.
+Lemma balanced_field fc d rest : balanced d (field_sops fc ++ rest) = balanced d rest.
 Proof.
-  destruct v as [n|n|b|w|l|w]; try apply balanced_stoks.
-  destruct w as [|c w]; [reflexivity|]. apply balanced_stoks.
+  destruct fc as [v oc]. unfold field_sops. cbn [fst snd]. rewrite <- !app_assoc.
+  assert (C : forall d r, balanced d (match oc with Some c => [SComment c] | None => [] end ++ r) = balanced d r).
+  { intros d0 r. destruct oc; reflexivity. }
+  destruct v as [n|n|b|w|l|w|n|l|w|b|a]; cbn [val_sops];
+    try (rewrite balanced_stoks, C; reflexivity).
+  - destruct w as [|c w]; [cbn [app balanced]; rewrite C; reflexivity | rewrite balanced_stoks, C; reflexivity].
+  - cbn [app balanced]. rewrite balanced_stoks, C. cbn [app balanced].
+    replace (d + 1 - 1) with d by lia. destruct (0 <? d + 1) eqn:E; [reflexivity|lia].
 Qed.
 
-Lemma expect_val multi v rest :
-  expect multi true (val_sops v ++ rest) = map (shape_tok true) (field_shapes v) ++ expect multi true rest.
+Lemma expect_field multi fc rest :
+  expect multi true (field_sops fc ++ rest) = map (shape_tok true) (field_shapes (fst fc)) ++ expect multi true rest.
 Proof.
-  destruct v as [n|n|b|w|l|w]; try apply expect_stoks.
-  destruct w as [|c w]; [reflexivity|]. apply expect_stoks.
+  destruct fc as [v oc]. unfold field_sops. cbn [fst snd]. rewrite <- !app_assoc.
+  assert (C : forall r, expect multi true (match oc with Some c => [SComment c] | None => [] end ++ r) = expect multi true r).
+  { intros r. destruct oc; reflexivity. }
+  destruct v as [n|n|b|w|l|w|n|l|w|b|a]; cbn [val_sops];
+    try (rewrite expect_stoks, C; reflexivity).
+  - destruct w as [|c w]; [cbn [app expect]; rewrite C; reflexivity | rewrite expect_stoks, C; reflexivity].
+  - cbn [app expect orb]. rewrite expect_stoks, C. reflexivity.
 Qed.
 
 Lemma balanced_flat fs d rest : balanced d (flat_map field_sops fs ++ rest) = balanced d rest.
 Proof.
-  induction fs as [|f fs IH]; [reflexivity|]. cbn [flat_map]. rewrite <- app_assoc.
-  unfold field_sops at 1. rewrite <- app_assoc, balanced_val.
-  destruct (snd f); cbn [app balanced]; exact IH.
+  induction fs as [|f fs IH]; [reflexivity|]. cbn [flat_map]. rewrite <- app_assoc, balanced_field. exact IH.
 Qed.
 
 Lemma expect_flat multi fs rest :
@@ -209,8 +345,7 @@ Lemma expect_flat multi fs rest :
   = map (shape_tok true) (flat_map field_shapes (map fst fs)) ++ expect multi true rest.
 Proof.
   induction fs as [|f fs IH]; [reflexivity|]. cbn [flat_map map]. rewrite <- app_assoc, map_app, <- app_assoc.
-  unfold field_sops at 1. rewrite <- app_assoc, expect_val. f_equal.
-  destruct (snd f); cbn [app expect]; exact IH.
+  rewrite expect_field. f_equal. exact IH.
 Qed.
 
 Lemma record_sops_facts multi schema r : wf_record schema r ->
